@@ -38,22 +38,24 @@ Rules used for Part A and their source (nothing is transcribed from model.cpp):
   documentation gives "activity(water)/55.5" only to 3 digits), exchange and surface species, Davies/-gamma species in a file with
   LLNL parameters (known finding, see KNOWN below).
 """
-import math, os, re, hashlib
+import math, os, re
 from hypothesis import strategies as st
-from .. import lib, chemgen as cg, dbparse, gd, formula as F
+from .. import lib, chemgen as cg, dbparse, gd
 from ..core import Violation, Discard
 from . import c01
 
 ID = "C16"
 LEVEL = "exploration"
-RULE = ("Part A: Hypothesis-generated solutions on the shipped ion-association databases (C01's generator: 1-8 elements, 1e-9..3 "
-        "molal, pH 2-12, 0-100 C inside the LLNL grid, optional second simulation with REACTION / EQUILIBRIUM_PHASES / MIX / "
-        "temperature step; plus a brine generator: 1-4 major salts up to 6 molal ionic strength with trace elements); every "
-        "selected-output row is checked: LG of every aqueous species present against the model the database text assigns, at the "
-        "reported MU, DH_A, DH_B (1e-9). Non-trivial (IA) = >= 5 checked species with |LG| > 1e-3. "
+RULE = ("Part A: Hypothesis-generated solutions on the shipped ion-association databases (C01's generator: 1-8 elements, pH "
+        "2-12, 0-100 C inside the LLNL grid, unit/charge/phase/valence options, optional second simulation with REACTION / "
+        "EQUILIBRIUM_PHASES / MIX / temperature step, concentrations scaled by one factor per solution into a nominal ionic "
+        "strength of 3e-4..4; plus a brine generator: 1-6 major ions up to several molal with 0-4 trace elements); every "
+        "selected-output row with 1e-4 <= MU <= 6 is checked: LG of every aqueous species present against the model the database "
+        "text assigns, at the reported MU, DH_A, DH_B (1e-9). Non-trivial (IA) = >= 5 checked species with |LG| > 1e-3. "
         "Part B: composition paths c(t) = t * (mixture of 1-4 exactly stoichiometric neutral salts) on pitzer.dat, sit.dat, "
         "frezchem.dat, ColdChem.dat and pitzer.dat+Concrete_PZ.dat, t on a geometric grid of 64/128/256 intervals from 1e-4..1e-2 "
-        "to a nominal ionic strength of 0.05..5.8 molal (reported MU at the end <= 6), fixed temperature 0-100 C (frezchem/ColdChem 0-25 C), 1 atm, each node a "
+        "to a nominal ionic strength of 0.05..5.8 molal (reported MU <= 6), fixed temperature 0-100 C (frezchem/ColdChem 0-25 C), "
+        "1 atm, each node a "
         "charge-balanced solution ('pH 7 charge') or a REACTION step on charge-balanced pure water; Gibbs-Duhem residual after "
         "Richardson extrapolation <= 1e-4 * sum|terms| (three nested trapezoid levels, inconclusive unless the refinement ratio is "
         "~4) and |ln a_w + phi*sum(m)/55.50837| <= 1e-5 at every node. Non-trivial (path) = reported MU at the last node >= 0.5 "
@@ -389,7 +391,9 @@ def check_ia(case, ctx):
         ctx.event("ia:rows_outside_1e-4..6_molal_ionic_strength(not_asserted)", skipped_rows)
     if nrows == 0:
         raise Discard("ia_ionic_strength_outside_1e-4..6")
-    classes = ["ia", "ia:gen=" + case.get("gen", "?"), "ia:db=" + case["db"], "ia:rows=%d" % min(nrows, 4)]
+    classes = ["ia", "ia:gen=" + case.get("gen", "?"), "ia:db=" + case["db"]]
+    if nrows > 1:
+        classes.append("ia:rows>=2(reacted_states)")
     classes += ["ia:model=" + m for m in sorted(models)]
     classes += ["ia:" + t for t in sorted({t_bucket(t) for t in tcs})]
     classes += ["ia:" + t for t in sorted({i_bucket(m) for m in mus})]
@@ -621,6 +625,8 @@ def check_path(case, ctx):
             raise Discard("path_node_not_charge_balanced")
         lnaw = v["LAW"] * LN10
         nodes.append({"m": m, "lna": lna, "lnaw": lnaw})
+        if v["MU"] > I_MAX:
+            raise Discard("path_beyond_6_molal_ionic_strength")
         # ---- water activity = exp(-M_w phi sum m)
         sm = sum(m.values())
         phi = v["OSM"]
@@ -662,8 +668,7 @@ def check_path(case, ctx):
     tc = case["temp"]
     classes = ["path", "path:db=" + case["db"], "path:" + t_bucket(tc), "path:salts=%d" % len(case["salts"]),
                "path:family=" + salt_family(case), "path:mode=" + case["mode"], "path:n=%d" % case["n"],
-               "path:I_end=" + ("<0.5" if mu_end < 0.5 else "0.5-2" if mu_end < 2 else "2-4" if mu_end < 4 else ">=4"),
-               "path:decades=%d" % int(round(math.log10(case["imax"] / case["t0"])))]
+               "path:I_end=" + ("<0.5" if mu_end < 0.5 else "0.5-2" if mu_end < 2 else "2-4" if mu_end < 4 else ">=4")]
     cats = {salt_info(s)["cation"] for s, _ in case["salts"]}
     ans = {salt_info(s)["anion"] for s, _ in case["salts"]}
     if len(cats) >= 2:
